@@ -43,7 +43,7 @@ def _(c):
     c.pure()
     c.requires("tree allocated", lambda x: x.a.self != NONE)
     c.ensures("result == callback(tree, data) if a callback is set else hash(data)", lambda x: x.r == calc_id(x.h0, x.a.self, x.a.data))
-    c.may_raise("Exception", ensures=unchanged_all, props=("C13",), name="callback raises")
+    c.may_raise("Callback", ensures=unchanged_all, props=("C13",), name="callback raises")
 
 
 def id_of(x):
@@ -71,7 +71,7 @@ def _(c):
     c.assumed = True
     c.assumed_reason = "Node.find_all/_search: generator + lambdas over re; checked by the bounded tier (native/props/c09.py)"
     c.ensures("fresh result list", lambda x: And(x.r != LNONE, fresh_list(x, x.r), unchanged_lists(x)))
-    c.may_raise("Exception", ensures=None)
+    c.may_raise("Callback", ensures=None)
 
 
 @contract(NQ + "find_first", props=("C09",))
@@ -82,7 +82,7 @@ def _(c):
     c.assumed = True
     c.assumed_reason = "see Node.find_all"
     c.ensures("pre-existing lists unchanged", lambda x: unchanged_lists(x))
-    c.may_raise("Exception", ensures=None)
+    c.may_raise("Callback", ensures=None)
 
 
 @contract(TQ + "find_all", props=("C02", "C09"))
@@ -96,7 +96,7 @@ def _(c):
     idpath = lambda x: x.a.tag("data") != "none" or x.a.tag("data_id") != "none"  # noqa: E731
     c.raises("AssertionError", when=lambda x: z3.BoolVal(both(x) or (idpath(x) and x.a.tag("match") != "none")), ensures=unchanged_all, props=("C13",))
     c.raises("NotImplementedError", when=lambda x: z3.BoolVal(not idpath(x) and x.a.tag("match") == "none"), ensures=unchanged_all, props=("C13",))
-    c.may_raise("Exception", ensures=None, name="callback raises")
+    c.may_raise("Callback", ensures=None, name="callback raises")
 
     def post(x):
         if not idpath(x):
@@ -123,7 +123,7 @@ def _(c):
     t = lambda x, n: x.a.tag(n) != "none"  # noqa: E731
     c.raises("AssertionError", when=lambda x: z3.BoolVal((t(x, "data") and t(x, "data_id")) or ((t(x, "data") or t(x, "data_id")) and (t(x, "match") or t(x, "node_id"))) or (t(x, "match") and t(x, "node_id") and not (t(x, "data") or t(x, "data_id")))), ensures=unchanged_all, props=("C13",))
     c.raises("NotImplementedError", when=lambda x: z3.BoolVal(not (t(x, "data") or t(x, "data_id") or t(x, "match") or t(x, "node_id"))), ensures=unchanged_all, props=("C13",))
-    c.may_raise("Exception", ensures=None, name="callback raises")
+    c.may_raise("Callback", ensures=None, name="callback raises")
 
     def post(x):
         h0 = x.h0
@@ -151,7 +151,7 @@ def _(c):
     c.result_tag = "bool"
     c.modifies("llen", "litem", "lalloc")
     c.requires("wf", lambda x: wf0(x))
-    c.may_raise("Exception", ensures=None, name="callback raises")
+    c.may_raise("Callback", ensures=None, name="callback raises")
     c.ensures("result <=> some node carries calc_data_id(data)", lambda x: And(unchanged_lists(x), x.r == x.h0.ddom(x.h0._nodes_by_data_id(x.T), calc_id(x.h0, x.T, x.a.data))))
 
 
@@ -180,7 +180,7 @@ def _(c):
     c.raises("ValueError", when=lambda x: z3.BoolVal(isnode(x)), ensures=unchanged_all, props=("C09", "C13"))
     c.raises("KeyError", when=lambda x: z3.BoolVal(False) if isnode(x) else And(Not(by_node_id(x)), Not(group(x)[0])), ensures=unchanged_lists, props=("C09", "C13"))
     c.raises("AmbiguousMatchError", when=lambda x: z3.BoolVal(False) if isnode(x) else And(Not(by_node_id(x)), group(x)[0], x.h0.llen(group(x)[1]) > 1), ensures=unchanged_lists, props=("C09", "C13"))
-    c.may_raise("Exception", ensures=None, name="callback raises")
+    c.may_raise("Callback", ensures=None, name="callback raises")
     c.ensures("result: node_id first, then data_id, then data", lambda x: And(unchanged_lists(x), x.r == If(by_node_id(x), x.h0.dref(x.h0._node_by_id(x.T), x.a.data), x.h0.litem(group(x)[1], 0))))
 
 
